@@ -1193,8 +1193,11 @@ class Engine:
         if is_num(a) and is_num(b):
             return self.num_binop(op, a, b, st, node)
         if isinstance(op, ast.Mult) and a.k == 'list' and a.items and b.k == 'int' \
-                and not z3.is_int_value(z3.simplify(b.z)) and all(x.k == 'any' for x in a.items):
-            items = a.items
+                and not z3.is_int_value(z3.simplify(b.z)) \
+                and all(x.k in ('any', 'int', 'real', 'bool', 'none') for x in a.items):
+            facts = []
+            items = [x if x.k == 'any' else V('any', self.box_any(x, facts, node)) for x in a.items]
+            st.pc.extend(facts)
             m = len(items)
             k = b.z
 
@@ -2430,6 +2433,10 @@ class Engine:
                 if r is not None:
                     out.extend(r)
                     continue
+                m = self.map_comprehension(e, g, it, st1)
+                if m is not None:
+                    out.append((st1, m))
+                    continue
                 raise Unsupported(e, 'comprehension over symbolic sequence')
             res = [(st1, [])]
             for item in items:
@@ -2448,6 +2455,110 @@ class Engine:
         return out
 
     ex_GeneratorExp = ex_ListComp
+
+    def box_any(self, v, facts, node):
+        """Any-sorted term equal to the scalar value v (facts: what the solver must know about it)"""
+        if v.k == 'any':
+            return v.z
+        if v.extra and v.extra.get('any') is not None and v.k in ('int', 'real', 'bool', 'str'):
+            return v.extra['any']
+        if v.k == 'none':
+            z = z3.Const('boxed.None', VV.Any)
+            facts.append(VV.tag_of(z) == TAGS['none'])
+            return z
+        if v.k == 'int':
+            z = z3.Function('boxed.int', z3.IntSort(), VV.Any)(v.z)
+            facts.extend([VV.tag_of(z) == TAGS['int'], VV.any_int(z) == v.z])
+            return z
+        if v.k == 'real':
+            z = z3.Function('boxed.float', z3.RealSort(), VV.Any)(v.z)
+            facts.extend([VV.tag_of(z) == TAGS['float'], VV.any_real(z) == v.z])
+            return z
+        if v.k == 'bool':
+            z = z3.Function('boxed.bool', z3.BoolSort(), VV.Any)(v.z)
+            facts.extend([VV.tag_of(z) == TAGS['bool'], VV.any_bool(z) == v.z])
+            return z
+        if v.k == 'str' and v.py is not None:
+            z = z3.Const('boxed.str_%s' % v.py.encode().hex(), VV.Any)
+            facts.extend([VV.tag_of(z) == TAGS['str'], self.str_is(v.py)(z)])
+            return z
+        raise Unsupported(node, 'comprehension element of kind %s on one path and another kind on another' % v.k)
+
+    def map_comprehension(self, e, g, it, st):
+        """[elt for target in <symbolic sequence>] with an element expression that has no effect and
+        cannot raise: a sequence of the same length whose i-th element is the expression evaluated on
+        the source's i-th element, in the environment of this moment.  Checked here for an arbitrary
+        index (a fresh constant), so "no effect, no exception" holds for every element."""
+        sq = it if it.k == 'seq' else (self.as_seq(it, st) if it.k == 'dyn' else None)
+        if sq is None or sq.k != 'seq' or not sq.extra.get('get'):
+            return None
+        env0 = dict(st.env)
+        objs_c = {k: dict(v) for k, v in st.objs.items()}         # object fields as they are NOW
+        src = sq.extra['get']
+        ln = sq.extra['len']
+
+        def same(a, b):
+            if a is b:
+                return True
+            if a.k != b.k:
+                return False
+            if a.z is not None and b.z is not None:
+                return a.z.eq(b.z)
+            return a.oid is not None and a.oid == b.oid
+
+        def changed(objs1, objs0):
+            for oid, flds in objs1.items():
+                for f, v in flds.items():
+                    v0 = objs0.get(oid, {}).get(f)
+                    if v0 is None:
+                        # first read of a field: its pre-state symbol, created on demand
+                        try:
+                            cls = next((x.cls for x in env0.values() if x.k == 'ref' and x.oid == oid), None)
+                            v0 = self.field_sym(oid, cls, f, e) if cls else None
+                        except Exception:
+                            v0 = None
+                        if v0 is None:
+                            return True
+                    if not same(v, v0):
+                        return True
+            return False
+
+        def element(eng, i, st_):
+            st2 = st_.fork()
+            st2.env = dict(env0)
+            st2.objs = {k: dict(v) for k, v in objs_c.items()}
+            n_tr, n_pc = len(st2.trace), len(st2.pc)
+            objs0 = {k: dict(v) for k, v in st2.objs.items()}
+            item = src(eng, i, st2)
+            outs = []
+            for ao in eng.assign(g.target, item, st2):
+                if ao[0] != 'next':
+                    raise Unsupported(e, 'comprehension target')
+                for st3, v in eng.eval(e.elt, ao[1]):
+                    if isinstance(v, Raised):
+                        raise Unsupported(e, 'comprehension element may raise')
+                    if len(st3.trace) != n_tr or changed(st3.objs, objs0):
+                        raise Unsupported(e, 'comprehension element with an effect')
+                    outs.append((list(st3.pc[n_pc:]), v))
+            if not outs:
+                raise Unsupported(e, 'comprehension element without a feasible path')
+            if len(outs) == 1:
+                st_.pc.extend(outs[0][0])
+                return outs[0][1]
+            cases = []
+            r = z3.Const('elt!%d' % next(eng.counter), VV.Any)
+            for pcs, v in outs:
+                facts = []
+                z = eng.box_any(v, facts, e)
+                cases.append(z3.And(*(pcs + facts + [r == z])))
+            st_.pc.append(z3.Or(*cases))
+            return V('any', r)
+
+        k = z3.Int('comp.k!%d' % next(self.counter))
+        probe = st.fork()
+        probe.pc.extend([k >= 0, k < ln])
+        element(self, k, probe)                       # raises Unsupported unless pure for every index
+        return V('seq', extra={'len': ln, 'get': element, 'facts': [ln >= 0]})
 
     def ex_Yield(self, e, st):
         """`yield v` in a generator body: v is appended to the ghost trace, the
